@@ -781,9 +781,9 @@ def place_kid(rng, present, kid, positions):
         return {}
     pos = rng.choice(positions)
     out = {pos: kid}
-    if len(positions) > 1 and rng.random() < 0.12:
-        other = rng.choice([p for p in positions if p != pos])
-        out[other] = rng.choice(["shadowed", "k1", ""])
+    others = [p for p in positions if p != pos]
+    if others and rng.random() < 0.12:
+        out[rng.choice(others)] = rng.choice(["shadowed", "k1", ""])
     return out
 
 
@@ -1005,7 +1005,12 @@ def run(ctx):
 
     ev = lib.CoqEval(["From Model Require Import Base PyVal TableTypes C14KeySet C14Cases."], "c14case", "c14_check", "c14_show",
                      shard=400, max_chars=300000, preamble=thumb_preamble(h))
-    res = ev.run(cases)
+    res = ev.run(cases, jobs=8)
+    for attempt in range(2):
+        # a coqc killed by the machine (out of memory under load) leaves no Coq error message: evaluate again, slowly
+        if res["errors"] and not any("Error" in err for _, err in res["errors"]):
+            ctx.notes.append("case evaluation: %d shard(s) died without a Coq error, retrying" % len(res["errors"]))
+            res = ev.run(cases, jobs=2)
     ctx.notes.append("wall: prove %.1fs, implementation runs %.1fs, coq evaluation of %d cases %.1fs" % (t1 - t0, t2 - t1, len(cases), time.time() - t2))
     ctx.coverage["traces_validated_against_impl"] = res["evaluated"]
     ctx.coverage["disagreements_checked"] = len(res["failing"])
@@ -1094,6 +1099,7 @@ def main_loop(ctx, h, add, report, dist, onepu=False):
             cons.append(dict(base, keys=spec["keys"], src="set", mode="direct"))
             cons.append(dict(base, keys=spec["keys"], src="set", mode="call"))
         for cs in cons:
+            cs["pids"] = used
             crec = consume(h, cs)
             for c in guess_cases(h, crec):
                 add(c, ("guess", "%s %s consume" % (fam, ser), cs, pool_ids(cs)))
@@ -1408,7 +1414,7 @@ def forged_consume(ctx, h, add, report, spec, rec):
             pids = [fid]
         mode = rng.choice(["direct", "direct", "call"])
         cs = {"fam": fam, "ser": fser, "token": token, "algs": spec["algs"], "keys": spec["keys"], "src": "set", "mode": mode,
-              "sender": spec.get("sender")}
+              "sender": spec.get("sender"), "pids": pids}
         if rng.random() < 0.12 and len(spec["keys"]) > 1:
             cs["keys"] = [spec["keys"][fi]] if rng.random() < 0.6 else [rng.choice(spec["keys"])]   # single-key set
         crec = consume(h, cs)
@@ -1456,16 +1462,42 @@ def replay(path):
             crec = consume(h, spec)
             print("consume outcome:", crec["out"])
             print("set kids:", [k.kid for k in crec["keys"]], "token headers:", crec["pre"])
-            return 1
+            if "pids" not in spec or (spec.get("sender") and r.get("kind") != "consume-named-key-rejected"):
+                return 1
+            pids = [remap[x] for x in spec["pids"]]
+            judge_consume(h, crec, expected_consume(h, crec["keys"], crec["pre"], pids), report, "replayed token")
+            return 1 if found else 0
         from joserfc.jwk import KeySet
+        from joserfc.errors import InvalidKeyIdError
         kset = KeySet([h.build_key(tuple(s)) for s in spec["keys"]])
-        print("set kids:", [(k.kid, k.key_type) for k in kset.keys])
+        keys = kset.keys
+        print("set kids:", [(k.kid, k.key_type) for k in keys])
+        if r.get("kind") == "keyset-kid-invariant":
+            fresh = [h.build_key(tuple(s)) for s in spec["keys"]]
+            before = [k.dict_value.get("kid") for k in fresh]
+            KeySet(fresh)
+            bad = [(b, k.dict_value.get("kid")) for b, k in zip(before, fresh)
+                   if k.dict_value.get("kid") is None or (b is not None and b != k.dict_value.get("kid"))]
+            print("kids before/after violating the invariant:", bad)
+            return 1 if bad else 0
         if "kid" in r or "alg" in r:
+            bad = False
             if "kid" in r:
-                print("get_by_kid(%r) ->" % (r["kid"],), call(kset.get_by_kid, r["kid"]))
+                kid = r["kid"]
+                out = call(kset.get_by_kid, kid)
+                print("get_by_kid(%r) ->" % (kid,), out)
+                named = [k for k in keys if isinstance(kid, str) and k.kid == kid]
+                if kid is None and len(keys) == 1:
+                    named = [keys[0]]
+                bad = (out[0] != "ok" or out[1] is not named[0]) if named else (out[0] == "ok" or not isinstance(out[1], InvalidKeyIdError))
             if "alg" in r:
-                print("pick_random_key(%r) ->" % (r["alg"],), call(kset.pick_random_key, r["alg"]))
-            return 1
+                out = call(kset.pick_random_key, r["alg"])
+                print("pick_random_key(%r) ->" % (r["alg"],), out)
+                et = expected_types(r["alg"]) if isinstance(r["alg"], str) else None
+                if et is not None and out[0] == "ok":
+                    bad = bad or (out[1] is None and any(k.key_type in et for k in keys)) or \
+                        (out[1] is not None and out[1].key_type not in et)
+            return 1 if bad else 0
         rec = produce(h, spec)
         print("produce outcome:", rec["out"])
         if rec["out"][0] == "ok":
